@@ -180,7 +180,7 @@ func checkLiteral(c *core.Ctx, f univ.Flavor, k kind, lit string, quoted bool) {
 }
 
 func run(c *core.Ctx) {
-	c.Rule = "literals = every string of <=L characters over {- 0 1 2 9 . e E +} (bare and quoted), plus structured families around every type limit (limit-1, limit, limit+1 written with exponent / fraction shifts of -25..25 digits, e.g. 1e2, 100.0, 0.001e5), each decoded into each of the 12 numeric kinds of test3.TestAllTypes. Oracle (math/big exact rational): an integer field accepts iff the literal is an RFC 8259 number denoting an integer in range, and then holds exactly that integer; a float field accepts iff the value is in range and then holds the correctly rounded value (strconv). Bytes: every string of <=4 characters over the std+url base64 alphabets and '=': padded std/url base64 must be accepted with the right value, strings invalid in every variant rejected. Enums by name and number; outputs: 64-bit integers as strings, bytes as padded std base64"
+	c.Rule = "literals = every string of <=L characters over {- 0 1 2 9 . e E +} (bare and quoted), plus structured families around every type limit (limit-1, limit, limit+1 written with exponent / fraction shifts of -25..25 digits, e.g. 1e2, 100.0, 0.001e5), each decoded into each of the 12 numeric kinds of test3.TestAllTypes. Oracle (math/big exact rational): an integer field accepts iff the literal is an RFC 8259 number denoting an integer in range, and then holds exactly that integer; a float field accepts iff the value is in range and then holds the correctly rounded value (strconv). Bytes: every string of <=4 characters over the std+url base64 alphabets and '=': padded std/url base64 and unpadded URL-safe base64 must be accepted with the right value, strings invalid in every variant rejected. Enums by name and number; outputs: 64-bit integers as strings, bytes as padded std base64"
 	c.Exhaustive = true
 	f := univ.Gen("goproto.proto.test3.TestAllTypes")
 	alpha := []byte("-0129.eE+")
@@ -290,8 +290,15 @@ func run(c *core.Ctx) {
 		std, e1 := base64.StdEncoding.DecodeString(s)
 		url, e2 := base64.URLEncoding.DecodeString(s)
 		_, e3 := base64.RawStdEncoding.DecodeString(s)
-		_, e4 := base64.RawURLEncoding.DecodeString(s)
+		rawURL, e4 := base64.RawURLEncoding.DecodeString(s)
 		switch {
+		case e1 != nil && e2 != nil && e4 == nil:
+			// URL-safe base64 as it is usually written: without padding
+			if err != nil {
+				c.Violation("bytes: rejects valid unpadded URL-safe base64 input="+s, err.Error())
+			} else if string(m.Get(bfd).Bytes()) != string(rawURL) {
+				c.Violation("bytes: wrong value for unpadded URL-safe base64 input="+s, nil)
+			}
 		case e1 == nil || e2 == nil:
 			want := std
 			if e1 != nil {
@@ -360,6 +367,6 @@ func run(c *core.Ctx) {
 	c.Bounds["base64_strings"] = nb.Load()
 	c.Sample(map[string]any{"literal": "0.001e5", "field": "singularInt32", "expect": "100"})
 	c.Sample(map[string]any{"literal": "0.000000000000000000001e21", "field": "singularInt64", "expect": "1"})
-	c.Assume("quoted literals with surrounding spaces and unpadded base64 are tolerated either way (not covered by the statement)")
+	c.Assume("quoted literals with surrounding spaces and unpadded base64 that uses '+' or '/' are tolerated either way (not covered by the statement)")
 	c.Assume("float correct rounding is judged against strconv.ParseFloat (Go standard library, trusted)")
 }
